@@ -188,15 +188,15 @@ CHECKS = {
                   'termination under fairness) that also emits the abstract session grid; every case run as a real DashValidator session through an '
                   'in-process HTTP adapter that rewrites one response; TLC trace validation of every session (ValidatorFaultsTrace)',
         text='TLC model-checks the load / validate / sleep / refresh protocol with an adversary that rewrites the nth applicable response of one '
-             'kind, and emits the grid configuration class (live, encrypted, timeline, patch) x 8 fault families x occurrence. The harness '
-             'instantiates each case with a concrete template, option vector, clock and byte/text patcher (26 patchers, harness/faults.py), '
+             'kind, and emits the grid configuration class (live, encrypted, timeline, patch) x 9 fault families (the eight of the statement plus a mandatory attribute removed from an MPD *patch* response) x occurrence. The harness '
+             'instantiates each case with a concrete template, option vector, clock and byte/text patcher (29 patchers, harness/faults.py), '
              'adds pristine sessions over the option vectors the template registry declares, and runs the bundled validator against the real '
              'application (virtual sleep, inline worker pool). Every fetch / validate / sleep / refresh step is replayed by TLC through the '
              'model\'s actions: the adversary schedule and the protocol order must agree, and C18_Terminates, C18_NoFalsePositive, C18_Detects '
              'and C18_Located are evaluated on the observed outcome.',
         note='Trusted: TLC, the patchers (own walker / regular expressions), the weakest reading of "located" (line range of the owning '
              'AdaptationSet / the element or its parent, or URL / file name, or box / attribute name in the message). Not covered: multi-period '
-             'streams, validator options other than duration/encrypted, the save-to-disk paths, faults outside the 8 listed families.',
+             'streams, validator options other than duration/encrypted, the save-to-disk paths, faults outside the 9 families.',
         design='4 C18'),
     'C20': dict(
         technique='TLA+ spec BufferedReader.tla: TLC exhaustive refinement check (implementation-shaped cache model vs '
@@ -212,14 +212,14 @@ CHECKS = {
 
 # stages added while the checks were strengthened against seeded changes (DESIGN.md 0.6); appended to the level text
 EXTRA = {
-    'C01': ' Streams beside the bbb fixture: a text track without tfdt boxes, an audio file as timing reference, fragments numbered '
+    'C01': ' An exception out of the segment lookup is the 500 the handler would answer. Streams beside the bbb fixture: a text track without tfdt boxes, an audio file as timing reference, fragments numbered '
            '1, 3, 5, ...; explicit starts with UTC offsets and fractional seconds; field-width boundary instants (2^31..2^33 ticks). Event schedules that begin inside the window, off the segment grid.',
     'C02': ' Streams beside the bbb fixture: a text track without tfdt boxes, an audio file as timing reference (non-integral loop '
            'length in the other tracks\' ticks), fragments numbered 1, 3, 5, ...; field-width boundary instants.',
     'C03': ' The walker also reports boxes whose syntax (version / flags) needs more bytes than the box has. A server error in place of a stored segment requested by its own number / time is a violation (large segments included).',
     'C05': ' Young streams at sub-second instants, a multi-period stream with a clear-only subtitle track under DRM selections, two dubs '
            'on one track id, hostile strings with "$"; the document with the hostile strings is itself validated.',
-    'C06': ' A stream stored with top-level free padding (after moov, between fragments, at the end of the file). The padded stream also has a free box before ftyp. A stream stored without sidx boxes (styp + moof + mdat per fragment; one known finding, see X03 in DESIGN.md).',
+    'C06': ' A stream stored with top-level free padding (after moov, between fragments, at the end of the file). The padded stream also has a free box before ftyp. A stream stored without sidx boxes (styp + moof + mdat per fragment; one known finding, see X03 in DESIGN.md). A stream whose last mdat is written with size 0 (to the end of the file); a legal file the indexer refuses is a violation.',
     'C07': ' Where the text given has a reading of its own (integer literals) that reading must reach the media endpoint; time-of-day '
            'error positions must name the segment that contains the instant; text-valued options round-trip starting from the value. A second stream with option defaults of its own (spec/OptionLayers.tla): values left out, equal to the global default, equal to the stream default, other.',
     'C08': ' The timing reference varies per option group (incl. durations whose double is not a whole number of seconds); thorough: '
@@ -234,7 +234,7 @@ EXTRA = {
     'C15': ' The second client\'s CSRF cookie is a near-copy of the first one\'s; used tokens return in equivalent percent-encodings; HEAD '
            'requests carry GET\'s parameter variants. An account created on the primary key of a deleted media account is swept as a lesser role.',
     'C16': ' Every /time/<method> route and the ends of the accepted integer range in the grid; failure count 0.',
-    'C17': ' Key ids written in several spellings (rows identified by the 128-bit value).',
+    'C17': ' Key ids written in several spellings (rows identified by the 128-bit value). Edits of a multi-period stream\'s name (free, own, in use): never 5xx, accepted only for a free name, no rows removed.',
     'C19': ' A sweep of the microsecond field of date-times, scale_timedelta over deltas up to 400 days, the template filters.',
 }
 
